@@ -3,7 +3,7 @@ C16 shares the machinery: one declaration-violating change must be refused."""
 from eolib.data.eo_writer import EoWriter
 from eolib.protocol.serialization_error import SerializationError
 from vh_gentree import gen_unit
-from vh_refsem import build, ref_serialize, RefInvalid
+from vh_refsem import build, ref_serialize, RefInvalid, ARRAYS
 
 
 def wire(types, desc, cfg):
@@ -26,3 +26,13 @@ def wire(types, desc, cfg):
         w2 = EoWriter()
         obj.write(w2)
         check(w2.to_bytearray() == got, "Packet.write emits the same bytes as serialize")
+
+
+def wire_iter(types, desc, cfg):
+    """the same obligation with every array argument handed to the constructor as a one-shot iterator
+    (the documented parameter type is Iterable): the object must have taken its snapshot in one pass"""
+    ARRAYS["as"] = "iter"
+    try:
+        wire(types, desc, cfg)
+    finally:
+        ARRAYS["as"] = "list"
